@@ -18,7 +18,7 @@ RULE = ('full product of (configurable shape x list kind) x parameter name x sel
         'entry point, finalize hook); one evaluation = one attempt compared with the acceptance rule + unchanged-state '
         'oracle. non-trivial = the attempt must be rejected or goes through **kwargs.')
 ASSUMPTIONS = ['acceptance rule restated from the property', 'exception class on rejection is not prescribed']
-WITNESSES = ['accepted_and_injected', 'unknown_param_rejected', 'denylisted_rejected', 'not_allowlisted_rejected',
+WITNESSES = ['rule_follows_registration_changes', 'accepted_and_injected', 'unknown_param_rejected', 'denylisted_rejected', 'not_allowlisted_rejected',
              'unknown_configurable_rejected', 'method_without_class_rejected', 'method_with_class_accepted',
              'varkw_accepts_any_name', 'hook_path_rejected_unlocked', 'rejected_left_config_unchanged', 'dynamic_registered_accepts',
              'dynamic_registered_rejects']
@@ -60,6 +60,15 @@ def setup():
     TARGETS['cl_' + lk] = dict(call=gin.configurable(mk_cl('cl_' + lk), **kw), sig=['a', 'b'], varkw=False, lists=kw)
   for lk, kw in (('none', {}), ('allow', {'allowlist': ['a', 'zz']}), ('deny', {'denylist': ['b']})):
     TARGETS['vk_' + lk] = dict(call=gin.configurable(mk_vk('vk_' + lk), **kw), sig=['a'], varkw=True, lists=kw)
+  # constructors whose receiver is not called `self` / `cls` (namedtuple's generated __new__ uses `_cls`)
+  ns = {'REC': REC, 'gin': gin}
+  exec('class cl_this:\n  def __init__(this, a="da", b="db"):\n'
+       '    REC.append(("cl_this", gin.current_scope_str(), dict(a=a, b=b)))\n'
+       'class cl_new:\n  def __new__(_cls, a="da", b="db"):\n'
+       '    REC.append(("cl_new", gin.current_scope_str(), dict(a=a, b=b)))\n    return object.__new__(_cls)\n', ns)  # pylint: disable=exec-used
+  for nm in ('cl_this', 'cl_new'):
+    ns[nm].__module__ = 'c11'
+    TARGETS[nm] = dict(call=gin.external_configurable(ns[nm], name=nm, module='c11'), sig=['a', 'b'], varkw=False, lists={})
   # functions already wrapped by an ordinary user decorator (functools.wraps, *args/**kwargs wrapper)
   import functools  # pylint: disable=import-outside-toplevel
 
@@ -147,7 +156,7 @@ class Box:
   import c11dyn  # pylint: disable=import-outside-toplevel,unused-import
 
 
-PARAMS = ['a', 'b', 'nope', 'zz', '_private', 'A', 'self']
+PARAMS = ['a', 'b', 'nope', 'zz', '_private', 'A', 'self', 'this', '_cls']
 SCOPES = ['', 's']
 PATHS = ['str', 'tuple', 'list', 'pbk', 'text', 'block', 'files_and_bindings', 'hook', 'hook_tuple', 'tuple4',
          'list4', 'hook_tuple4']
@@ -367,7 +376,79 @@ def run_dyn_case(case, res):
   res.w('dynamic_registered_rejects')
 
 
+# ------------------------------------------------------------------------------------ registration changes between
+# two uses of the same key: the rule is evaluated against the registry as it is when the binding is made
+SEQ_KINDS = ['method_then_class', 'interactive_tighter_denylist', 'interactive_tighter_allowlist']
+
+
+def run_seq_case(case, res):
+  _, kind, scope, path = case
+  harness.hard_reset()
+  res.case(tuple(case), True)
+  ns = {'REC': REC, 'gin': gin}
+  if kind == 'method_then_class':
+    exec('class Kq:\n  def __init__(self):\n    pass\n'  # pylint: disable=exec-used
+         '  def meth2(self, a="da", b="db"):\n    return (a, b)\n', ns)
+    Kq = ns['Kq']
+    Kq.__module__ = 'c11'
+    Kq.meth2.__module__ = 'c11'
+    Kq.meth2.__qualname__ = 'Kq.meth2'
+    gin.register(Kq.meth2)
+    first, sel_before, sel_after, why = ('meth2', 'a'), 'meth2', 'meth2', 'method_without_class'
+    change = lambda: gin.register(Kq)  # noqa: E731
+    still_ok = ('Kq.meth2', 'a')
+  else:
+    lists = {'denylist': ['b']} if kind == 'interactive_tighter_denylist' else {'allowlist': ['a']}
+    why = 'denylisted' if 'denylist' in lists else 'not_allowlisted'
+    exec('def redef(a="da", b="db"):\n  return (a, b)\n', ns)  # pylint: disable=exec-used
+    ns['redef'].__module__ = 'c11'
+    gin.external_configurable(ns['redef'], name='redef', module='c11')
+    first, sel_after = ('redef', 'b'), 'redef'
+    still_ok = ('redef', 'a')
+
+    def change():
+      exec('def redef(a="da2", b="db2"):\n  return (a, b)\n', ns)  # pylint: disable=exec-used
+      ns['redef'].__module__ = 'c11'
+      with gin.config.interactive_mode():
+        gin.external_configurable(ns['redef'], name='redef', module='c11', **lists)
+  try:
+    attempt(path, scope, first[0], first[1], 'V1')       # accepted: valid at this point
+    if path.startswith('hook'):
+      cfg._FINALIZE_HOOKS.pop()
+      with gin.unlock_config():
+        pass
+      gin.clear_config()
+      gin.parse_config("c11.pre_fn.x = 'pre'\n")
+    change()
+  except Exception as e:  # pylint: disable=broad-except
+    res.violation('valid_binding_rejected', 'case %r: set-up (binding while still valid, then the registration '
+                  'change) raised %r' % (case, e), case)
+    return
+  try:
+    attempt(path, scope, sel_after, first[1], 'V2')
+    out = 'accepted'
+  except Exception as e:  # pylint: disable=broad-except
+    out = 'rejected:' + type(e).__name__
+  res.outcome('seq:%s:%s' % (why, out.split(':')[0]))
+  if out == 'accepted':
+    res.violation('invalid_binding_accepted:' + why, 'case %r: %s.%s was valid and accepted before the registration '
+                  'changed; afterwards it must be rejected (%s) but was accepted again' % (case, sel_after, first[1], why), case)
+    return
+  if path.startswith('hook'):
+    cfg._FINALIZE_HOOKS.pop()
+  try:
+    attempt(path, scope, still_ok[0], still_ok[1], 'V3')
+  except Exception as e:  # pylint: disable=broad-except
+    res.violation('valid_binding_rejected', 'case %r: %s.%s after the registration change raised %r' %
+                  (case, still_ok[0], still_ok[1], e), case)
+    return
+  res.w('rule_follows_registration_changes')
+
+
 def gen(tier):
+  for kind, scope, path in itertools.product(SEQ_KINDS, SCOPES, PATHS):
+    if not path.endswith('4'):
+      yield ['seq', kind, scope, path]
   yield from dyn_cases()
   for tname in list(TARGETS) + [None]:
     sps = spellings(tname) if tname else ['c11.nosuch', 'nosuch', 'c11.fx_none.a']
@@ -387,7 +468,7 @@ def run_shard(i, tier):
   for n, c in enumerate(gen(tier)):
     if n % NSH != i:
       continue
-    (run_dyn_case if c[0] == 'dyn' else run_case)(c, res)
+    {'dyn': run_dyn_case, 'seq': run_seq_case}.get(c[0], run_case)(c, res)
     if n % 701 == i:
       res.sample({'case': c})
   harness.hard_reset()
@@ -396,6 +477,6 @@ def run_shard(i, tier):
 
 def replay(case):
   res = core.Result()
-  (run_dyn_case if case[0] == 'dyn' else run_case)(case, res)
+  {'dyn': run_dyn_case, 'seq': run_seq_case}.get(case[0], run_case)(case, res)
   harness.hard_reset()
   return res
